@@ -133,6 +133,13 @@ def generate(seed, tier="quick"):
         if f["sites"]["oc1"]["op"] == "item":
             e["key"], e["cop"] = ["str", "k"], "eq"
         orng.choice(f["tests"])["events"].append(e)
+    nrng_ = sub(seed, "nested-imports")
+    if nrng_.random() < 0.15:
+        # ... and a value in that file needs one of these names (an object whose repr is not code, created or inserted into an existing list)
+        W.add_nested_tool_imports(prog["files"][0], nrng_)
+        f_ = prog["files"][0]
+        f_["sites"]["ni1"] = {"op": "eq", "place": "direct", "arg": nrng_.choice([None, "[1]"]) if "c01" == "c02" else None, "prev": None}
+        nrng_.choice(f_["tests"])["events"].append({"t": "cmp", "eid": "eni1", "site": "ni1", "vals": [["list", [["int", 1], ["norepr", nrng_.randint(1, 5)]]]], "style": nrng_.choice(["assert", "rec"])})
     wrng = sub(seed, "twin")
     if wrng.random() < 0.1:
         # a second module with the same text layout (same helper functions on the same lines): call sites of different files stay apart
